@@ -687,6 +687,14 @@ impl<'m> MCTPSMBusContext<'m> {
                         }
                     }
 
+                    // The response carries the Instance ID of the request so that
+                    // the requester can match the two up. The response encoders
+                    // always use Instance ID 0.
+                    if header.instance_id() != 0 {
+                        response_buf[9] |= header.instance_id();
+                        response_buf[len - 1] = pec(&response_buf[0..(len - 1)]);
+                    }
+
                     return Ok(((msg_type, payload), Some(len)));
                 }
 
